@@ -4,7 +4,21 @@ ID=$1; shift
 cd /repo && git diff --quiet || { echo "/repo has uncommitted changes"; exit 2; }
 git -C /repo apply /verif/seeded/$ID/patch.diff || { echo "patch does not apply"; git -C /repo reset -q --hard HEAD; exit 3; }
 for C in "$@"; do
-  echo "--- seeded $ID vs check $C"
-  VERIF_SECS=${VERIF_SECS:-30} /verif/check $C quick 2>&1 | grep -E "VIOLATION|signature|^C[0-9]+:|KNOWN|HARNESS|nothing" | sort | uniq -c | sort -rn | head -8
+  LOG=$(mktemp)
+  /verif/check $C quick > $LOG 2>&1; RC=$?
+  NV=$(grep -c "^VIOLATION" $LOG)
+  echo "--- seeded $ID vs check $C: exit=$RC violation_lines=$NV $( [ $RC = 1 ] && [ $NV -gt 0 ] && echo CAUGHT || echo MISSED )"
+  python3 - "$C" <<'PY'
+import json,sys
+try:
+    e=json.load(open(f'/verif/evidence/{sys.argv[1]}.json'))
+    sigs={k[len('violation:'):]:v for k,v in e.get('coverage',{}).get('counters',{}).items() if k.startswith('violation:')}
+    for s,n in sorted(sigs.items(), key=lambda x:-x[1])[:6]:
+        print(f"      {n:4d} {s[:200]}")
+except Exception as ex:
+    print("      (no evidence:", ex, ")")
+PY
+  grep -E "HARNESS|KNOWN-FINDING" $LOG | sort | uniq -c | head -4
+  rm -f $LOG
 done
 git -C /repo reset -q --hard HEAD; git -C /repo status --short | head
